@@ -1,4 +1,4 @@
-CONSTANTS N = 5  StartRule = "next"  MaxTr = 2
+CONSTANTS N = 5  StartRule = "next"  MaxTr = 1
 SPECIFICATION Spec
 INVARIANT FairWindow FairBound
 CONSTRAINT Bounded
